@@ -341,8 +341,7 @@ def rule_position_owner(ctx):
     ctx.floor(R, "writer constructions", n, 6)
 
 
-def rule_string(ctx):
-    R = "C16/string"
+def rule_string(ctx, R="C16/string"):
     b = ctx.body(R, "mem_writer::write_string_to_location")
     if b is None:
         return
